@@ -36,6 +36,7 @@ KERNELS = {
     "C34": ["k_expose_tables", "k_meta_call"],
     "C22": ["k_placeholder_algebra"],
     "C40": ["k_cli"],
+    "C07": ["k_output_frame"],
     "C06": ["k_unique_id", "k_random"],
     "C11": ["k_plus_minus_units", "k_numeric_cmp", "k_unitset_simplify"],
     "C13": ["k_map_merge", "k_map_find_value", "k_map_literal", "k_map_set_inner", "k_deep_merge"],
@@ -741,6 +742,9 @@ _C40_PROBES += [
     (("rel", "cli", {"files": {"x/b.scss": _C40_B}, "argv": ["-I", "inc", "x/b.scss"], "fails": True}), None),
 ]
 STRUCTURAL_PROBES["k_cli"] = _C40_PROBES
+_C07_DOCS = ["a { b: c }", "", "a { b: c }\n\n\n", "@import 'x.css';", "@foo bar;", "@x #{\"\\a\"};", "@x y#{\"\\a\"};", "a { b: c } @x #{\"\\a \\a\"};",
+             "a { b: \"\u00e4\" }", "/* \u00e4 */ a { b: c }", "a { b: c; }\n/* d */\n", "a { --x: {\n} }", "@media print { a { b: c } }\n"]
+STRUCTURAL_PROBES["k_output_frame"] = [(("rel", "framed", d, st) + (("nonascii",) if "\u00e4" in d and "/*" not in d else ()), None) for d in _C07_DOCS for st in ("expanded", "compressed")]
 STRUCTURAL_PROBES["k_do_find_file"] = STRUCTURAL_PROBES["k_find_file"] + [((_FLAKY, "[fail-lookup %d]a.scss" % k), "<error>") for k in range(6)] + [
     ((_FLAKY, "[fail-lookup 99]a.scss"), "a { b: 1; c: 2; }")]
 STRUCTURAL_PROBES["k_fsloader_find"] = STRUCTURAL_PROBES["k_find_file"]
@@ -838,6 +842,18 @@ def relation_probe(src):
             texts = [(r["message"] if r["outcome"] == "ok" else "<%s>" % r["outcome"]) for r in outs]
             if len(set(texts)) != 1:
                 return {"relation": "compile_scss == transform == compile_scss_path [%s, precision %s] on %r" % (style, prec, doc), "profile": prof, "got": texts}
+        elif kind == "framed":                 # the framing of a real output: one final newline, charset / BOM iff non-ASCII
+            doc, style = src[2], src[3]
+            r = native.run_api("scss", style, 5, doc, prof)
+            if r["outcome"] != "ok":
+                return {"relation": "framed(%r, %s)" % (doc, style), "profile": prof, "got": r["outcome"]}
+            out = r["message"]
+            ok = out == "" or (out.endswith("\n") and not out.endswith("\n\n"))
+            mark = "\ufeff" if style == "compressed" else '@charset "UTF-8";\n'
+            ascii_only = all(ord(ch) < 128 for ch in out)
+            ok = ok and (ascii_only or out.startswith(mark)) and not (ascii_only and src[4:] == ("nonascii",))
+            if not ok:
+                return {"relation": "framed(%r, %s)" % (doc, style), "profile": prof, "got": out}
         elif kind == "cli":                    # the real rsass binary against the library (and against itself)
             spec = src[2]
             import shutil
